@@ -165,6 +165,16 @@ def execute(plan: dict) -> Result:
             if bad or int(back.size) != len(pt) - 8:
                 res.violate(("C06", "roundtrip_fields_differ", ",".join(sorted(bad)) or "size"),
                             f"decrypt_metadata(encrypt_metadata(m)) differs in {bad or ['size']}")
+            # the same blob offered to the holder of ANOTHER private key (after it was decrypted with the right one)
+            try:
+                decrypt_metadata(blob, rsa_key(plan["other"]))
+                res.violate(("C06", "blob_accepted_by_other_private_key"),
+                            "a blob that had just been decrypted with its own key was accepted by decrypt_metadata with another private key")
+            except ValueError:
+                res.probes["own_blob_then_other_key"] += 1
+            except Exception as e:
+                res.violate(("C06", "rogue_wrong_exception", "other_private_key", type(e).__name__),
+                            f"decrypt_metadata with another private key raised {e!r} instead of ValueError")
             d = hashlib.sha256(fields["aes_rand"]).digest()
             seed_arg = bytearray(fields["aes_rand"]) if f.get("aes_rand_as") == "bytearray" else fields["aes_rand"]
             k1 = derive_aes_hmac_keys(seed_arg)
